@@ -351,10 +351,13 @@ void runC09() {
               done.store(1, std::memory_order_relaxed);
             },
             dispenso::ForceQueuingTag());
-        double t0 = vrt::nowSeconds();
-        while (!done.load(std::memory_order_relaxed) && vrt::nowSeconds() - t0 < 30.0) {
-          if (!allAsleep(workers)) vrt::progress();
-          vrt::sleepUs(50);
+        if (wake) waitFlagOrStranded(done, *pool, workers);
+        else {
+          double t0 = vrt::nowSeconds();
+          while (!done.load(std::memory_order_relaxed) && vrt::nowSeconds() - t0 < 30.0) {
+            vrt::progress();
+            vrt::sleepUs(50);
+          }
         }
       }
     }
